@@ -823,6 +823,12 @@ func c19Misc(c *Check, R map[*ssa.Function]bool) {
 					if sk.Field != nil && (sk.Field.Pkg() == nil || !isOurPath(sk.Field.Pkg().Path())) {
 						continue
 					}
+					// trace events (with_tla build) are a sink like the logger, not protocol state
+					if sk.Field != nil {
+						if owner := p.fieldOwner(sk.Field); owner != nil && strings.HasPrefix(owner.Obj().Name(), "Tracing") {
+							continue
+						}
+					}
 					c.Bad("C19.F", "formatted text stored into state", fnName(fn), p.site(sk.Instr), "formatted / stringified values go only to the logger, panics or error returns", fmt.Sprintf("field %v", sk.Field))
 				}
 			}
